@@ -335,25 +335,38 @@ fn c09_simple_ops() {
     std::mem::forget(ctx);
 }
 
-#[kani::proof]
-#[kani::unwind(16)]
-fn c09_validate() {
+fn validate_for(from: usize, to: usize, inline: bool) {
     let caps = Caps::any();
     let ctx = caps.context();
-    let vi = new_decomposed::<Validate, _>(&ctx, |b| b.config(String::new()).finish());
-    assert!(vi.is_ok() == caps.validate(), "C09 validate (inline config): built iff :validate");
-    std::mem::forget(vi);
-    let mut di = 0;
-    while di < 3 {
+    if inline {
+        let vi = new_decomposed::<Validate, _>(&ctx, |b| b.config(String::new()).finish());
+        assert!(vi.is_ok() == caps.validate(), "C09 validate (inline config): built iff :validate");
+        kani::cover!(vi.is_ok(), "validate inline accepted");
+        std::mem::forget(vi);
+    }
+    let mut di = from;
+    while di < to {
         let d = DATASTORES[di];
         let v = new_decomposed::<Validate, _>(&ctx, |b| b.source(d)?.finish());
         assert!(v.is_ok() == (caps.validate() && caps.source_ok(d)), "C09 validate: built iff :validate and the source datastore are permitted");
-        kani::cover!(v.is_ok() && di == 1, "validate candidate accepted");
+        kani::cover!(v.is_ok(), "validate datastore accepted");
         kani::cover!(v.is_err(), "validate refused");
         std::mem::forget(v);
         di += 1;
     }
     std::mem::forget(ctx);
+}
+
+#[kani::proof]
+#[kani::unwind(16)]
+fn c09_validate_inline_and_running() {
+    validate_for(0, 1, true)
+}
+
+#[kani::proof]
+#[kani::unwind(16)]
+fn c09_validate_candidate_startup() {
+    validate_for(1, 3, false)
 }
 
 #[kani::proof]
@@ -436,26 +449,38 @@ fn c09_edit_config_target() {
     std::mem::forget(ctx);
 }
 
-#[kani::proof]
-#[kani::unwind(16)]
-fn c09_edit_config_test_option() {
+fn test_option_for(k: usize) {
     let caps = Caps::any();
     kani::assume(caps.candidate);
     let ctx = caps.context();
-    let mut k = 0;
-    while k < 3 {
-        let test = TEST_OPTIONS[k];
-        let r = new_decomposed::<EditConfig<Opaque>, _>(&ctx, |b| {
-            b.target(Datastore::Candidate)?.config(Opaque::from("")).test_option(test)?.finish()
-        });
-        let allowed = if k == 2 { caps.v11 } else { caps.validate() };
-        assert!(r.is_ok() == allowed, "C09 edit-config: built iff the test-option value is permitted");
-        kani::cover!(r.is_ok() && k == 2, "test-only accepted");
-        kani::cover!(r.is_err(), "test-option refused");
-        std::mem::forget(r);
-        k += 1;
-    }
+    let test = TEST_OPTIONS[k];
+    let r = new_decomposed::<EditConfig<Opaque>, _>(&ctx, |b| {
+        b.target(Datastore::Candidate)?.config(Opaque::from("")).test_option(test)?.finish()
+    });
+    let allowed = if k == 2 { caps.v11 } else { caps.validate() };
+    assert!(r.is_ok() == allowed, "C09 edit-config: built iff the test-option value is permitted");
+    kani::cover!(r.is_ok(), "test-option accepted");
+    kani::cover!(r.is_err(), "test-option refused");
+    std::mem::forget(r);
     std::mem::forget(ctx);
+}
+
+#[kani::proof]
+#[kani::unwind(16)]
+fn c09_edit_config_test_then_set() {
+    test_option_for(0)
+}
+
+#[kani::proof]
+#[kani::unwind(16)]
+fn c09_edit_config_test_set() {
+    test_option_for(1)
+}
+
+#[kani::proof]
+#[kani::unwind(16)]
+fn c09_edit_config_test_only() {
+    test_option_for(2)
 }
 
 #[kani::proof]
@@ -769,41 +794,52 @@ use crate::message::{ClientMsg, WriteXml};
 #[kani::proof]
 #[kani::unwind(40)]
 fn c12_negotiation_and_framing() {
-    let s10: bool = kani::any();
-    let s11: bool = kani::any();
-    let other: bool = kani::any();
-    let server = crate::capabilities::verif_caps::capabilities_from_slots([
-        if s10 { Some(Capability::Base(Base::V1_0)) } else { None },
-        if s11 { Some(Capability::Base(Base::V1_1)) } else { None },
-        if other { Some(Capability::Candidate) } else { None },
-        None, None, None, None, None, None, None, None, None, None, None,
-    ]);
+    // The four subsets of {:base:1.0, :base:1.1} a server can advertise are walked by a
+    // concrete loop: with symbolic presence bits `Capability::eq` explores the string
+    // comparisons of variants that cannot occur (measured: > 15 min), and the quantifier here
+    // has only four values.  The symbolic part of C12 is the hello reader harness.
     let client = ClientHello::default().capabilities();
-    let negotiated = client.highest_common_version(&server);
-    // what the client put into its own hello decides what it may negotiate
     let c10 = client.iter().any(|c| matches!(c, Capability::Base(Base::V1_0)));
     let c11 = client.iter().any(|c| matches!(c, Capability::Base(Base::V1_1)));
-    match &negotiated {
-        Ok(Base::V1_1) => assert!(c11 && s11, "C12: negotiated :base:1.1 without both peers advertising it"),
-        Ok(Base::V1_0) => assert!(c10 && s10 && !(c11 && s11), "C12: negotiated :base:1.0 although it is not the highest common version"),
-        Err(_) => assert!(!(c10 && s10) && !(c11 && s11), "C12: session refused although the peers share a base version"),
-    }
-    // framing of the first request after the hello exchange
     quick_xml::writer::set_emit_bytes(true);
     let req = rpc::Request::new(vr::message_id(1), CloseSession);
     let wire = req.to_xml();
-    if let (Ok(v), Ok(bytes)) = (&negotiated, &wire) {
-        let b = bytes.as_bytes();
-        let eom = b.len() >= 6 && &b[b.len() - 6..] == b"]]>]]>";
-        let chunked = b.len() >= 2 && b[0] == b'\n' && b[1] == b'#';
-        match v {
-            Base::V1_0 => assert!(eom && !chunked, "C12: :base:1.0 negotiated but the request is not end-of-message framed"),
-            Base::V1_1 => assert!(chunked && !eom, "C12: :base:1.1 negotiated but the request is not chunk framed (RFC 6242 4.2)"),
+    let (eom, chunked) = match &wire {
+        Ok(bytes) => {
+            let b = bytes.as_bytes();
+            (b.len() >= 6 && &b[b.len() - 6..] == b"]]>]]>", b.len() >= 2 && b[0] == b'\n' && b[1] == b'#')
         }
+        Err(_) => (false, false),
+    };
+    assert!(wire.is_ok(), "C12: the first request cannot be serialised");
+    let mut k = 0u8;
+    while k < 4 {
+        let s10 = k & 1 != 0;
+        let s11 = k & 2 != 0;
+        let server = crate::capabilities::verif_caps::capabilities_from_slots([
+            if s10 { Some(Capability::Base(Base::V1_0)) } else { None },
+            if s11 { Some(Capability::Base(Base::V1_1)) } else { None },
+            Some(Capability::Candidate),
+            None, None, None, None, None, None, None, None, None, None, None,
+        ]);
+        let negotiated = client.highest_common_version(&server);
+        match &negotiated {
+            Ok(Base::V1_1) => {
+                assert!(c11 && s11, "C12: negotiated :base:1.1 without both peers advertising it");
+                assert!(chunked && !eom, "C12: :base:1.1 negotiated but requests are not chunk framed (RFC 6242 4.2)");
+            }
+            Ok(Base::V1_0) => {
+                assert!(c10 && s10 && !(c11 && s11), "C12: negotiated :base:1.0 although it is not the highest common version");
+                assert!(eom && !chunked, "C12: :base:1.0 negotiated but requests are not end-of-message framed");
+            }
+            Err(_) => assert!(!(c10 && s10) && !(c11 && s11), "C12: session refused although the peers share a base version"),
+        }
+        kani::cover!(matches!(negotiated, Ok(Base::V1_0)), "1.0 negotiated");
+        kani::cover!(negotiated.is_err(), "refused");
+        std::mem::forget((negotiated, server));
+        k += 1;
     }
-    kani::cover!(matches!(negotiated, Ok(Base::V1_0)), "1.0 negotiated");
-    kani::cover!(negotiated.is_err(), "refused");
-    std::mem::forget((negotiated, wire, server, client));
+    std::mem::forget((wire, client));
 }
 
 // =================================================================================================
